@@ -132,6 +132,12 @@ func pathWithin(path, dir string) bool {
 		return true
 	}
 
+	if dir == "." {
+		// The cleaned path "." is the workspace root itself: it contains every
+		// relative path that does not climb out of it ("./" is never a prefix of a cleaned path).
+		return !filepath.IsAbs(path) && path != ".." && !strings.HasPrefix(path, relativePrefix)
+	}
+
 	dirWithSeparator := dir + string(filepath.Separator)
 	return strings.HasPrefix(path, dirWithSeparator)
 }
